@@ -288,11 +288,11 @@ Definition body_leaf (l : leaf) (r : rsvT) : res (list N) :=
       else Ok (be_enc 4 (vf_join v f) ++ be_enc 4 (lenN samples) ++ wr_if (has f 1) 4 doff ++
                wr_if (has f 4) 4 fsf ++ flat_map (wr_tsample f) samples)
   | LMvhd v f ct mt ts du rate vol nt =>
-      let w := if v =? 0 then 4%nat else 8%nat in
+      let w := if v =? 1 then 8%nat else 4%nat in   (* Version == 1 since repo commit 5633466 *)
       Ok (be_enc 4 (vf_join v f) ++ be_enc w ct ++ be_enc w mt ++ be_enc 4 ts ++ be_enc w du ++
           be_enc 4 rate ++ be_enc 2 vol ++ chunk 0 r ++ chunk 1 r ++ chunk 2 r ++ be_enc 4 nt)
   | LTkhd v f ct mt tid du layer ag vol wd ht =>
-      let w := if v =? 0 then 4%nat else 8%nat in
+      let w := if v =? 1 then 8%nat else 4%nat in   (* Version == 1 since repo commit 1982f88 *)
       Ok (be_enc 4 (vf_join v f) ++ be_enc w ct ++ be_enc w mt ++ be_enc 4 tid ++ chunk 0 r ++ be_enc w du ++
           chunk 1 r ++ be_enc 2 layer ++ be_enc 2 ag ++ be_enc 2 vol ++ chunk 2 r ++ chunk 3 r ++
           be_enc 4 wd ++ be_enc 4 ht)
@@ -337,11 +337,11 @@ Definition size_leaf (l : leaf) : N :=
   | LTfhd _ f _ _ _ _ _ _ =>
       16 + (if has f 1 then 8 else 0) + (if has f 2 then 4 else 0) + (if has f 8 then 4 else 0) +
       (if has f 16 then 4 else 0) + (if has f 32 then 4 else 0)
-  | LTfdt v _ _ => 16 + 4 * v
+  | LTfdt v _ _ => if v =? 0 then 16 else 20       (* repo commit c9514d3; was 16 + 4*Version *)
   | LTrun _ f _ _ samples => trun_expected f (u32 (lenN samples))
   | LMvhd v _ _ _ _ _ _ _ _ => if v =? 1 then 120 else 108
   | LTkhd v _ _ _ _ _ _ _ _ _ _ => if v =? 1 then 104 else 92
-  | LSidx v _ _ _ _ _ refs => 32 + 8 * v + lenN refs * 12
+  | LSidx v _ _ _ _ _ refs => 32 + (if v =? 0 then 0 else 8) + lenN refs * 12   (* repo commit ede563a; was 8*Version *)
   | LTrex _ _ _ _ _ _ _ => 32
   | LMdhd v _ _ _ _ _ _ => if v =? 1 then 44 else 32
   | LHdlr _ _ _ _ name lacks => 8 + 24 + lenN name + 1 - (if lacks then 1 else 0)
@@ -495,7 +495,8 @@ Fixpoint raw_box (keep : bool) (t : mbox) : res (list N) :=
       if bytes_eqb (h_name h) n_moof then
         match moof_pre cs with Ok _ => all | Err => Err | Panic => Panic | OutOfFuel => OutOfFuel end
       else all
-  | MUnknown h p => Ok (enc_hdr (h_name h) (h_size h) ++ p)
+  | MUnknown h p =>      (* the header form seen at decode is written back (repo commit 6d4574a) *)
+      Ok ((if 8 <? h_len h then enc_hdr_large (h_name h) (h_size h) else enc_hdr (h_name h) (h_size h)) ++ p)
   end.
 
 (* EncodeHeaderSW refuses sizes >= 2^32 (mdat with LargeSize excepted) *)
@@ -503,7 +504,7 @@ Fixpoint enc_fits (t : mbox) : bool :=
   match t with
   | MLeaf _ l _ => leaf_large l || (size_leaf l <? 4294967296)
   | MCont _ cs => (8 + sumN (map size_box cs) <? 4294967296) && forallb enc_fits cs
-  | MUnknown h _ => h_size h <? 4294967296
+  | MUnknown h _ => (8 <? h_len h) || (h_size h <? 4294967296)
   end.
 
 (* per-leaf FixedSliceWriter capacity check of the io.Writer path: every non-container box allocates
@@ -513,7 +514,7 @@ Fixpoint caps_ok (t : mbox) : bool :=
   | MLeaf _ (LMdat _ _) _ => true
   | MLeaf _ l r => match raw_leaf l (dflt_rsv l) with Ok b => lenN b <=? size_leaf l | _ => true end
   | MCont _ cs => forallb caps_ok cs
-  | MUnknown h p => 8 + lenN p <=? h_size h
+  | MUnknown h p => (if 8 <? h_len h then 16 else 8) + lenN p <=? h_size h
   end.
 
 (* b.Encode(w) *)
@@ -536,15 +537,12 @@ Definition hdr_size_field (bs : list N) : N :=
                 | Ok (v, _) => v | _ => 0 end.
 
 (* ---------------------------------------------------------------- exactness guards *)
-(* What must hold of a decoded leaf for its re-encoding to be the input: the versions for which the three
-   Go functions agree.  (Everything else that the decoder accepts is a finding, see C01Proofs.) *)
+(* What must hold of a decoded leaf for its re-encoding to be the input.  Before the repairs 5633466, 1982f88
+   (mvhd/tkhd encode on Version==1), c9514d3, ede563a (tfdt/sidx Size) this also excluded versions >= 2 of
+   mvhd, tkhd, tfdt, sidx; what is left is the trun whose data offset is present and zero (Encode refuses it). *)
 Definition leaf_guard (l : leaf) : bool :=
   match l with
-  | LTfdt v _ _ => v <=? 1
   | LTrun _ f doff _ _ => negb (has f 1 && (doff =? 0))
-  | LMvhd v _ _ _ _ _ _ _ _ => v <=? 1
-  | LTkhd v _ _ _ _ _ _ _ _ _ _ => v <=? 1
-  | LSidx v _ _ _ _ _ _ => v <=? 1
   | _ => true
   end.
 
@@ -558,5 +556,5 @@ Fixpoint exact_box (t : mbox) : bool :=
   | MCont h cs => (h_len h =? 8) && forallb exact_box cs &&
                   (negb (bytes_eqb (h_name h) n_moov) || moov_stable_from is_trak_box [] cs) &&
                   (negb (bytes_eqb (h_name h) n_moof) || match moof_pre cs with Ok _ => true | _ => false end)
-  | MUnknown h _ => h_len h =? 8
+  | MUnknown h _ => (h_len h =? 8) || (h_len h =? 16)
   end.
